@@ -33,10 +33,13 @@ Fixpoint delays_of (tr : list event) : list (option Z) :=
 
 (** a random number that makes getRandomValueFromInterval return [d] (clamped into the interval) *)
 Definition rnd_for (rf : Q) (cur d : Z) : Q :=
-  let dl := Z.max (delay_lo rf cur) (Z.min d (delay_hi rf cur)) in
   let mn := rv_min rf cur in
-  let x := if Qle_bool (inject_Z dl) mn then mn else inject_Z dl in
-  (x - mn) / (rv_max rf cur - mn + 1).
+  let mx := rv_max rf cur in
+  (* truncation is toward zero: d >= 0 is the image of [d, d+1), d < 0 of (d-1, d] *)
+  let cand := (if 0 <=? d then inject_Z d else inject_Z d - (1#2))%Q in
+  let x0 := if Qle_bool cand mn then mn else cand in                   (* trunc x0 = d if d is reachable *)
+  let x := if Qle_bool (mx + 1) x0 then mn else x0 in                  (* outside [mn, mx+1): any value, the model will differ *)
+  (x - mn) / (mx - mn + 1).
 
 Definition sel_timer (elapsed : Z) (rnd : Q) : sel := Sel 0 elapsed rnd false 0 0.
 Definition sel_exit : sel := Sel 0 0 0 true 0 0.
